@@ -69,7 +69,40 @@ def gen(variant, repo, out):
     return r.returncode == 0, (r.stdout + r.stderr)[-1500:]
 
 
+def _cache_path(harness):
+    """Scratch runs only: every harness lives in `mod waker_list` and exercises src/waker_list.rs (plus the dependency crates)
+    and nothing else of the crate, so its verdict is a function of that file, the harness sources and the generator."""
+    if not os.environ.get("VERIF_NO_EVIDENCE"):
+        return None
+    import hashlib
+    h = hashlib.sha256()
+    for f in [os.path.join(vx.REPO, "src", "waker_list.rs"), os.path.join(vx.REPO, "Cargo.lock")] + sorted(
+            os.path.join(KDIR, x) for x in os.listdir(KDIR) if x.endswith((".rs", ".py", ".sh"))):
+        try:
+            h.update(open(f, "rb").read())
+        except OSError:
+            h.update(b"?")
+    d = os.path.join(vx.VERIF, "build", "kani-cache")
+    os.makedirs(d, exist_ok=True)
+    return os.path.join(d, "%s-%s.json" % (h.hexdigest()[:20], harness))
+
+
 def run_one(crate, harness, timeout, target):
+    cp = _cache_path(harness)
+    if cp and os.path.exists(cp):
+        try:
+            return json.load(open(cp))
+        except ValueError:
+            pass
+    res = _run_one(crate, harness, timeout, target)
+    if cp and res["verdict"] in ("SUCCESSFUL", "FAILED"):
+        tmp = cp + ".%d" % os.getpid()
+        json.dump(res, open(tmp, "w"))
+        os.replace(tmp, cp)
+    return res
+
+
+def _run_one(crate, harness, timeout, target):
     env = dict(os.environ, CARGO_NET_OFFLINE="true", CARGO_TARGET_DIR=target)
     t0 = time.time()
     # one cargo-kani at a time per target directory, also across concurrently running checks (scratch runs of the seeded corpus)
